@@ -3,8 +3,13 @@
 No hook in the repository is used.  Control is gained from outside:
   * `next_sequence_number` is observed through a data descriptor added by a harness-side
     subclass of Rmcp (every read / write of the attribute is a scheduling point);
-  * `transaction_lock` is replaced, after construction, by a cooperative lock
-    (acquire / release are scheduling points; a thread waiting for it is "blocked");
+  * the module global `threading` of rmcp.py is shimmed for the duration of a run so that
+    EVERY lock the code creates - `transaction_lock` in the constructor, or any other lock
+    object(s) it decides to use - is a cooperative lock of the scheduler (acquire / release
+    are scheduling points; a thread waiting for an owned lock is "blocked");
+  * the first source line of `_send_and_receive` a thread executes after releasing a lock
+    (sys.settrace on that one function) is a scheduling point: the window between the
+    release and the return;
   * `_sock` is a scripted socket with an in-order reference BMC (sendto / recvfrom are
     scheduling points; no network, no waiting);
   * optionally (`fine=True`) every source line executed inside pyipmi/interfaces/rmcp.py
@@ -28,7 +33,7 @@ import sys
 import threading
 from array import array
 
-MODEL_KINDS = ('rd', 'wr', 'acq', 'snd', 'rcv', 'tmo', 'rel')
+MODEL_KINDS = ('rd', 'wr', 'acq', 'snd', 'rcv', 'tmo', 'rel', 'ret')
 
 
 class Abort(BaseException):
@@ -47,6 +52,9 @@ class Sched:
         self.go = {}            # tid -> Semaphore
         self.back = threading.Semaphore(0)
         self.pending = {}       # tid -> kind it is parked at
+        self.pending_obj = {}   # tid -> the lock it wants (kind 'acq')
+        self.after_release = {}  # tid -> released a lock and has not executed a line of _send_and_receive since
+        self.locks = []         # every cooperative lock created during the run
         self.finished = set()
         self.ident = {}         # thread ident -> tid
         self.abort = False
@@ -59,11 +67,12 @@ class Sched:
     def me(self):
         return self.ident[threading.get_ident()]
 
-    def park(self, kind):
+    def park(self, kind, obj=None):
         tid = self.ident.get(threading.get_ident())
         if tid is None:         # not a scheduled thread (set-up code): no scheduling
             return None
         self.pending[tid] = kind
+        self.pending_obj[tid] = obj
         self.back.release()
         if not self.go[tid].acquire(timeout=self.wait_s):
             raise Abort()
@@ -143,14 +152,16 @@ class CoopLock:
     def __init__(self, s):
         self.s = s
         self.owner = None
+        s.locks.append(self)
 
     def acquire(self, blocking=True, timeout=-1):
-        tid = self.s.park('acq')
+        tid = self.s.park('acq', self)
         if tid is None:
             return True
         if self.owner is not None:
             raise HarnessError('scheduler resumed a blocked thread')
         self.owner = tid
+        self.used = True
         self.s.did(tid, 'acq')
         return True
 
@@ -161,6 +172,7 @@ class CoopLock:
         if self.owner is None:
             raise RuntimeError('release unlocked lock')
         self.owner = None
+        self.s.after_release[tid] = True
         self.s.did(tid, 'rel')
 
     def locked(self):
@@ -286,6 +298,21 @@ class ShimThread:
         pass
 
 
+class LockShim:
+    """stands in for the module global `threading` of rmcp.py during a scheduled run:
+    EVERY lock the code creates (in __init__ or later, one or many) is a cooperative lock
+    of this run's scheduler; everything else is the real module"""
+
+    def __init__(self, real, s):
+        self._real, self._s = real, s
+
+    def Lock(self):
+        return CoopLock(self._s)
+
+    def __getattr__(self, k):
+        return getattr(self._real, k)
+
+
 class ShimThreading:
     """stands in for the module global `threading` of rmcp.py while call_repeatedly runs"""
 
@@ -357,6 +384,15 @@ def run_schedule(cfg, choices, fine=False, budget=None):
 
     captured_job()      # in the main thread, before any scheduled thread exists
     s = Sched(choices, budget or (40000 if fine else 4000))
+    real_threading = R.threading
+    R.threading = LockShim(real_threading, s)
+    try:
+        return _run(cfg, fine, s, R, SESS, Session, Target, create_request_by_name)
+    finally:
+        R.threading = real_threading
+
+
+def _run(cfg, fine, s, R, SESS, Session, Target, create_request_by_name):
 
     class SRmcp(R.Rmcp):
         def _g(self):
@@ -387,8 +423,8 @@ def run_schedule(cfg, choices, fine=False, budget=None):
     intf.host, intf.port = 'bmc', 623
     sock = ScriptedSocket(s, cfg.get('stale', ()))
     intf._sock = sock
-    lock = CoopLock(s)
-    intf.transaction_lock = lock
+    if not isinstance(getattr(intf, 'transaction_lock', None), CoopLock):
+        intf.transaction_lock = CoopLock(s)      # (the constructor did not go through threading.Lock)
     intf.next_sequence_number = cfg['nsn0']
     sess = SSession()
     sess.sid = 0x11223344
@@ -413,14 +449,30 @@ def run_schedule(cfg, choices, fine=False, budget=None):
     pyipmi_dir = R.__file__.rsplit('/interfaces/', 1)[0]
     traced = (R.__file__, SESS.__file__)
 
+    SAR = '_send_and_receive'
+
     def tracer(frame, event, arg):
-        if frame.f_code.co_filename in traced:
-            def local(frame, event, arg):
-                if event == 'line':
-                    s.park('line')
-                return local
+        code = frame.f_code
+        if code.co_filename == R.__file__ and code.co_name == SAR:
+            tid = s.ident.get(threading.get_ident())
+            s.after_release[tid] = False
+            return local
+        if fine and code.co_filename in traced:
             return local
         return None
+
+    def local(frame, event, arg):
+        if event == 'line':
+            code = frame.f_code
+            tid = s.ident.get(threading.get_ident())
+            if code.co_name == SAR and code.co_filename == R.__file__ and s.after_release.get(tid):
+                # the first line of _send_and_receive executed after the lock was released
+                s.after_release[tid] = False
+                s.park('ret')
+                s.did(tid, 'ret')
+            elif fine:
+                s.park('line')
+        return local
 
     def mk_worker(t, spec):
         reqs = spec['reqs']
@@ -431,8 +483,7 @@ def run_schedule(cfg, choices, fine=False, budget=None):
             return ['exc', type(e).__name__]
 
         def w():
-            if fine:
-                sys.settrace(tracer)
+            sys.settrace(tracer)
             try:
                 if kind == 'keepalive':
                     job, jargs = bind_job(intf)
@@ -451,7 +502,7 @@ def run_schedule(cfg, choices, fine=False, budget=None):
                     except BaseException as e:   # the real keep-alive thread would die here
                         out.append(exc_entry(e))
                 else:
-                    target = Target(0x20)
+                    target = Target(spec.get('target', 0x20))
                     for k, (netfn, cmd) in enumerate(reqs):
                         try:
                             if kind == 'raw':
@@ -480,7 +531,7 @@ def run_schedule(cfg, choices, fine=False, budget=None):
     sock.sendto = sendto
 
     workers = {t: mk_worker(t, spec) for t, spec in enumerate(cfg['threads'])}
-    s.run(workers, lambda t, kind: kind == 'acq' and lock.owner is not None)
+    s.run(workers, lambda t, kind: kind == 'acq' and getattr(s.pending_obj.get(t), 'owner', None) is not None)
 
     wire = []
     for ev in sock.wire:
@@ -501,7 +552,8 @@ def run_schedule(cfg, choices, fine=False, budget=None):
         'wire': wire,
         'results': [results.get(t, []) for t in range(len(cfg['threads']))],
         'enabled_log': s.enabled_log,
-        'lock_owner': lock.owner,
+        'lock_owner': next((l.owner for l in s.locks if l.owner is not None), None),
+        'locks_used': sum(1 for l in s.locks if getattr(l, 'used', False)),
         'keepalive_job': getattr(bind_job(intf)[0], '__name__', '?'),
         'final_nsn': intf.__dict__.get('_c14_nsn'),
         'final_sseq': sess.__dict__.get('_c14_sq'),
